@@ -143,16 +143,18 @@ def _pair_pattern(ctx, f, call: ast.Call):
         if not (isinstance(cond, ast.Call) and norm(cond.func) in ("np.all", "numpy.all") and cond.args):
             if isinstance(cond, ast.Call) and norm(cond.func) in ("np.any", "numpy.any"):
                 return False, "a parent's fitness is kept when ANY coordinate of the new genome equals the old one (np.any): rows that changed in another coordinate keep a stale fitness"
-            return False, f"unchanged-row test `{norm(cond)[:60]}` is not np.all(new == old, axis=1)"
+            return None, f"unchanged-row test `{norm(cond)[:60]}` is not recognisably np.all(new == old, axis=1)"
         axis = next((k.value for k in cond.keywords if k.arg == "axis"), cond.args[1] if len(cond.args) > 1 else None)
         if axis is None or not (isinstance(axis, ast.Constant) and axis.value == 1):
             return False, "unchanged-row test reduces over the wrong axis (must be axis=1: all coordinates of a row)"
         eq = cond.args[0]
         if not (isinstance(eq, ast.Compare) and len(eq.ops) == 1 and isinstance(eq.ops[0], ast.Eq)):
+            if not (isinstance(eq, ast.Call) and norm(eq.func).split(".")[-1] in ("isclose", "allclose")) and not (isinstance(eq, ast.Compare) and len(eq.ops) == 1 and isinstance(eq.ops[0], (ast.Lt, ast.LtE, ast.Gt, ast.GtE))):
+                return None, f"cannot read the unchanged-row test `{norm(eq)[:60]}`"
             return False, f"rows count as unchanged under `{norm(eq)[:60]}` instead of exact equality: a slightly different genome keeps its parent's fitness without being evaluated"
         sides = [canon(eq.left), canon(eq.comparators[0])]
         if not (isinstance(keep, ast.Attribute) and keep.attr == "fitnesses"):
-            return False, f"kept fitness `{norm(keep)}` is not a population's fitnesses"
+            return None, f"kept fitness `{norm(keep)}` is not a population's fitnesses"
         old = canon(keep.value) + ".genomes"
         newg = Gn or canon(G)
         if old not in sides:
@@ -162,7 +164,7 @@ def _pair_pattern(ctx, f, call: ast.Call):
         return True, "new genomes; fitness kept only for rows equal in every coordinate, NaN otherwise"
     if isinstance(f0, ast.Call) and norm(f0.func) in ("np.full", "np.full_like") and any(norm(a) in ("np.nan", "numpy.nan") for a in f0.args):
         return True, "all fitness values reset to NaN"
-    return False, f"genomes `{norm(Gr)[:60]}` and fitnesses `{norm(Fr)[:60]}` are not recognisably co-derived"
+    return None, f"genomes `{norm(Gr)[:60]}` and fitnesses `{norm(Fr)[:60]}` are not recognisably co-derived"
 
 
 def r02_1(ctx: Ctx):
@@ -176,7 +178,7 @@ def r02_1(ctx: Ctx):
             if isinstance(c, ast.Call) and _is_population_ctor(ctx, f, c):
                 n += 1
                 ok, why = _pair_pattern(ctx, f, c)
-                obs.append(ctx.ob("R02.1", f, c, status=OK if ok else VIOLATION, detail=why if ok else f"{f.short}: {why}"))
+                obs.append(ctx.ob("R02.1", f, c, status=OK if ok else INCONCLUSIVE if ok is None else VIOLATION, detail=why if ok else f"{f.short}: {why}"))
     if n < 8:
         raise AnalysisError(f"only {n} Population constructions found (11 confirmed by hand)")
     return obs
